@@ -21,7 +21,7 @@ ASSUMPTIONS = [
     "the listing is parsed by the README's fixed columns: $AAAA then a 10-character hex column",
     "END / NAM / EQU / SETDP rows may show any address (no property fixes it)",
 ]
-HEALTH = {"accepted": 0.5, "nontrivial_layout": 0.3, "negative": 0.05}
+HEALTH = {"accepted": 0.2, "nontrivial_layout": 0.12, "negative": 0.02}
 EXHAUSTIVE = {}
 
 _neg = st.sampled_from(["dup_label", "undef_symbol", "second_org", "code_before_org"])
